@@ -179,18 +179,18 @@ def Plan.lastCc (pl : Plan) : Nat := tpCc (pl.packets.getLast (by simp [Plan.pac
 /-- a stream: PES packets with their plans, one after the other on the same PID; `cc` is the
 counter of the packet before (`none`: nothing was seen before).  Counters continue across PES
 packets: a first packet carries a payload, so it advances the counter. -/
-def Stream : Option Nat → List (PesPkt × Plan) → Prop
+def PesStream : Option Nat → List (PesPkt × Plan) → Prop
   | _, [] => True
   | cc, (pes, pl) :: rest =>
     pes.WF ∧ WellFormedPlan pes pl ∧ (∀ c ∈ cc, tpCc pl.first = (c + 1) % 16)
-      ∧ Stream (some pl.lastCc) rest
+      ∧ PesStream (some pl.lastCc) rest
 
-instance Stream.dec : (cc : Option Nat) → (s : List (PesPkt × Plan)) → Decidable (Stream cc s)
+instance PesStream.dec : (cc : Option Nat) → (s : List (PesPkt × Plan)) → Decidable (PesStream cc s)
   | _, [] => isTrue trivial
   | cc, (pes, pl) :: rest =>
-    have := Stream.dec (some pl.lastCc) rest
+    have := PesStream.dec (some pl.lastCc) rest
     inferInstanceAs (Decidable (pes.WF ∧ WellFormedPlan pes pl ∧ (∀ c ∈ cc, tpCc pl.first = (c + 1) % 16)
-      ∧ Stream (some pl.lastCc) rest))
+      ∧ PesStream (some pl.lastCc) rest))
 
 /-! ## expected observations, in the consumer's callback vocabulary -/
 
